@@ -2,7 +2,7 @@
 # tools/confirm_seed.sh <name> [--full]  – independently confirm a seeded change left in /tmp/seed_<name>:
 # patch applies to a clean tree, demo fails with it and passes without it, (with --full) the
 # whole baseline suite still passes with it.  Copies patch/demo/meta to /verif/seeded/<name>/.
-N=$1; W=/tmp/seed_$N; O=/verif/seeded/$N
+N=$1; W=${SEED_WT:-/tmp/seed_$N}; O=/verif/seeded/$N
 mkdir -p "$O"; LOG="$O/confirm.log"; : > "$LOG"
 export CARGO_TARGET_DIR=$W/target CARGO_NET_OFFLINE=true RUST_BACKTRACE=0
 CMD=$(python3 -c "import json;print(json.load(open('$W/out/meta.json'))['demo_cmd'])")
